@@ -296,8 +296,15 @@ func (s *Sim) Event(format string, args ...any) {
 	if s.Cfg.Debug {
 		s.debugLog = append(s.debugLog, fmt.Sprintf("[step %d t=%v] %s", s.Steps, time.Since(s.start), msg))
 	}
+	if traceEvents {
+		fmt.Fprintf(os.Stderr, "[step %d t=%v] %s\n", s.Steps, time.Since(s.start), msg)
+	}
 	s.mu.Unlock()
 }
+
+// traceEvents prints every event as it happens (VERIF_TRACE=1): for runs that end in a
+// crash of the process, where the in-memory log is lost.
+var traceEvents = os.Getenv("VERIF_TRACE") != ""
 
 // Violate records an oracle failure.
 func (s *Sim) Violate(property, clause, signature, format string, args ...any) {
